@@ -30,7 +30,9 @@ META = {
             "for the four groups, depth 1..6, 1-5 leaves with sharing, root of any type; leaf values from the structured "
             "generators of DESIGN §4 (rotation angle ladder incl. 0 / eps-neighbourhood / beyond pi for algebra leaves, both "
             "quaternion hemispheres, translations 0..10, log-scales |s|<=1.5, points 0..10); batched tensors with per-item "
-            "values and broadcast leaves; random / sparse / basis cotangents; float64 and float32. A `local` stream runs every "
+            "values and broadcast leaves; random / sparse / basis cotangents; float64 and float32. A `batch` stream hands whole "
+            "batched calls (mixed-rank / expanded / scalar / incompatible batch shapes, fixed corner shapes + random) to the model's "
+            "own broadcasting layer (c04.bcall). A `local` stream runs every "
             "single Function (all groups, both arguments) on the full ladder. Log / Jinvp inputs are kept away from the "
             "rotation angle pi (> 0.3 rad); Jinvp additionally away from the zero rotation (theta >= 1e-3 — the quantifier's "
             "domain). non-trivial = at least one non-identity leaf; distinct by (program shape, groups, dtype, regime tags)",
@@ -47,11 +49,16 @@ META = {
         "the last storage slot of that cotangent is ignored by every backward pass",
     ],
     "partial": [
-        "local Jacobians of the transcendental nodes: proved in Lean for so3 Exp (closed-form branch and zero vector: so3_Jl is the "
-        "derivative of so3_Exp) and SO3 Log (regime 1: so3_Jl_inv is the derivative of Log); for se3/rxso3/sim3 Exp (Q block, Ws "
-        "block), the SE3/RxSO3/Sim3 logarithms, regimes 2-3 of SO3_Log and Jinvp (autograd of built-in ops = contract dJ) they are "
-        "hypotheses (`TransSpec`) of gradient_exact_partial and ride on the 192-bit finite-difference oracle; every program over "
-        "{Inv, @, Act, Act4, Adj, AdjT, matrix()} is covered unconditionally (gradient_exact_algebraic)",
+        "local Jacobians of the transcendental nodes (pass 3): proved in Lean wherever the code is the exact derivative of its own "
+        "forward pass — closed-form branches of so3/se3/rxso3 Exp and of SO3/SE3/RxSO3 Log (regime 1; se3/SE3 with theta > 0.05 = "
+        "closed form of calcQ), and for all four groups Exp at the zero vector (se3/rxso3: rotation part zero, any translation / "
+        "scale) and Log at the identity (SE3/RxSO3: rotation part +-1, any translation / scale); `Regimes` collects these "
+        "conditions and discharges `TransSpec` (gradient_exact_regimes_partial, leaf_gradient_exact_partial). NOT theorems, because "
+        "the code is only approximately the derivative there (O(eps^2) / O(theta^6) / truncation): Taylor branches at 0 < theta <= eps, "
+        "the series branch of calcQ at 0 < theta <= 0.05, regimes 2 (|w| <= eps) and 3 (0 < |v| <= eps) of SO3_Log, sim3 Exp / Sim3 "
+        "Log away from zero / identity; these ride on the 192-bit finite-difference oracle. Jinvp: reduced to the kernel contract "
+        "DJSpec on dJ (PyTorch autograd of built-in ops) + the Log node (Jinvp_node_of_contract). Every program over "
+        "{Inv, @, Act, Act4, Adj, AdjT, matrix()} is covered unconditionally (gradient_exact_algebraic, leaf_gradient_exact_algebraic)",
         "sim3/Sim3 Exp and Log backward use the documented truncated series: oracle comparison only where "
         "30*|ad xi|^6/5040*e^|ad xi| <= 1e-2, otherwise correspondence with the (equally truncated) model only",
         "float rounding of the backward passes is measured (tolerance 4*sqrt(eps)*scale; 1e4*eps for float64 programs outside the "
@@ -1300,7 +1307,7 @@ def corpus_cot(n_items, dim):
     return cots
 
 
-def corpus_cases(dtype, n_items):
+def corpus_cases(dtype, n_items, rows_fn=None, stream="corpus"):
     """one mixed-regime batch per (op, group): item k of every leaf sits in another regime (zero / tiny / around eps / sqrt(eps) /
     0.05 / ordinary / large rotation, both hemispheres, translations 0..1e6, scales e^-40..e^40, points 0..1e6, w in {1,0,-2.5})"""
     import random as _r
@@ -1314,19 +1321,23 @@ def corpus_cases(dtype, n_items):
             if len(ltypes) == 1 and node[0] == "B":      # the shared-leaf variant is covered by the random streams
                 continue
             kind = op[1] if op[1] != "MatrixA" else "Exp"
-            case["stream"] = "corpus"
+            case["stream"] = stream
             case["lshapes"] = [[n_items] for _ in ltypes]
             case["bshape"] = [n_items]
             vals = []
+            tie = rows_fn(op, g, dtype, ltypes, n_items) if rows_fn is not None else None
             for li, ty in enumerate(ltypes):
-                rows = corpus_items(ty, dtype, kind, n_items)
-                if li == 1:           # second leaf: shift so that every regime meets several partners
-                    rows = rows[3:] + rows[:3]
+                if tie is not None:
+                    rows = tie[li]
+                else:
+                    rows = corpus_items(ty, dtype, kind, n_items)
+                    if li == 1:           # second leaf: shift so that every regime meets several partners
+                        rows = rows[3:] + rows[:3]
                 vals.append(U.to_dtype_exact(rows, dtype)[1].tolist())
             case["values"] = vals
             od = tdim(node_type(node, ltypes))
             case["cot"] = U.to_dtype_exact(corpus_cot(n_items, od), dtype)[1].tolist()
-            case["tags"] = ["corpus"] * len(ltypes)
+            case["tags"] = [stream] * len(ltypes)
             cases.append(case)
     return cases
 
@@ -1340,12 +1351,12 @@ def single_item_case(case, b):
     return c
 
 
-def run_corpus(ctx: Ctx, n_items: int, dtypes, fd_every: int):
+def run_corpus(ctx: Ctx, n_items: int, dtypes, fd_every: int, rows_fn=None, stream="corpus"):
     """(2) deterministic corner corpus, identical for every seed; (1) extreme-but-valid magnitudes; (3) per-block relative
     tolerances; (7) mixed-regime batches, additionally compared item by item with the same call on each item alone"""
     kept = []
     for dtype in dtypes:
-        for case in corpus_cases(dtype, n_items):
+        for case in corpus_cases(dtype, n_items, rows_fn, stream):
             node = from_json(case["prog"])
             ps = prog_str(node)
             case["fd"] = True
@@ -1359,7 +1370,7 @@ def run_corpus(ctx: Ctx, n_items: int, dtypes, fd_every: int):
             except Exception as e:
                 ctx.fail(case, f"raises: {ps} on the corner corpus: {type(e).__name__}: {str(e)[:160]}")
                 continue
-            account(ctx, case, "corpus")
+            account(ctx, case, stream)
             if not structural_checks(ctx, case, r):
                 continue
             measure_floor(case, r)
@@ -1391,12 +1402,12 @@ def run_corpus(ctx: Ctx, n_items: int, dtypes, fd_every: int):
                 sc = max((abs(y) for y in o1), default=0.0)
                 if not (err <= t * sc) and not (sc == 0 and err <= 1e-300):
                     ctx.fail(dict(c1, item=b), f"batch: value of {ps} for item {b} inside a mixed-regime batch differs from the single call by {err:.3e} ({dtype})")
-                ctx.count("corpus.items")
+                ctx.count(stream + ".items")
             kept.append((case, r))
     # model + oracle: finite differences on every fd_every-th case (all of them in the thorough tier)
     for i, (case, r) in enumerate(kept):
         case["fd"] = (i % fd_every == 0)
-    evaluate_cases(ctx, kept, "corpus")
+    evaluate_cases(ctx, kept, stream)
 
 
 # ----------------------------------------------------------------------------- reuse / stale reads / views
@@ -1696,16 +1707,26 @@ def run_views(ctx: Ctx):
 def run(ctx: Ctx):
     torch.set_num_threads(max(1, min(4, int(os.environ.get("OMP_NUM_THREADS", "4")))))
     # deterministic part first: identical for every seed
-    from . import util_autograd_h2 as H2
+    from . import util_autograd_h2 as H2, util_autograd_h4 as H4
+    H4.run_fresh_modes(ctx)    # pass 4 (23): keys fresh in the process are used FIRST under inference_mode / no_grad, then with backward
     H2.run_all(ctx)            # pass 2: interleavings, argument combinations, error paths, grad modes, duck types, copies, memory, sizes
     run_corpus(ctx, n_items=ctx.pick(10, 24), dtypes=("float64", "float32"), fd_every=ctx.pick(3, 1))
+    # pass 4 (20): exact coincidences (quarter turns |v| == |w|, theta == 0.05 / eps, |sigma| == theta, Y == X, p == t, ...)
+    run_corpus(ctx, n_items=12, dtypes=("float64", "float32"), fd_every=ctx.pick(2, 1), rows_fn=H4.tie_values, stream="ties")
     run_reuse(ctx)
     run_stale(ctx)
     run_views(ctx)
+    H4.run_subclasses(ctx)     # (21)
+    H4.run_default_dtype(ctx)  # (25)
+    H4.run_signs(ctx)          # (26)
+    H4.run_numpy(ctx)          # (27)
+    H4.run_large(ctx)          # (19), (28): 2^14+1 / 2^16+1 items, kernel switch-over sizes
     # seeded part
     run_local(ctx, ctx.pick(1, 8))
     run_prog(ctx, ctx.pick(80, 1600))
     run_routes(ctx, ctx.pick(16, 240))
+    from . import util_autograd_batch as HB
+    HB.run_batch(ctx, ctx.pick(30, 400))   # pass 3: the model's own batched / broadcasting layer (c04.bcall) against the code
 
 
 def search(ctx: Ctx):
@@ -1747,6 +1768,12 @@ def json_key(j):
 def replay(ctx: Ctx, case) -> bool:
     c = case["case"]
     n0 = len(ctx.failures)
+    if c.get("stream") == "batch":
+        from . import util_autograd_batch as HB
+        return HB.replay_case(ctx, c)
+    from . import util_autograd_h4 as H4
+    if c.get("stream") in H4.STREAMS and "prog" not in c:
+        return H4.replay_case(ctx, c)
     try:
         r = run_case_impl(c)
     except Exception as e:
